@@ -465,7 +465,43 @@ def A14_randomness_sites(repo, clause):
                 ok, extra = _random_site_constraint(repo, fn, c, d)
                 detail += "; " + extra
             obs.append(Ob("A14", clause, fn, c, ok, detail, slot="%s:%s" % (top.qualname, d)))
-    floor("A14", "randomness call sites", n, 4)
+    floor("A14", "randomness call sites", n, 3)
+    obs.extend(_degenerate_axis_fallback(repo, clause))
+    return obs
+
+
+def A14b_fallback_axis(repo, clause):
+    return _degenerate_axis_fallback(repo, clause)
+
+
+def _degenerate_axis_fallback(repo, clause):
+    """In the (anti)parallel case the rotation axis is cross(v1, helper).  A *constant* helper is parallel to
+    v1 for inputs that lie along it (zero axis, degenerate rotation); the helper must be random or depend on
+    the input."""
+    fn = repo.fn("quaternion_from_two_vectors")
+    obs = []
+    sites = []
+    for n in fn.own_nodes():
+        if isinstance(n, ast.Assign) and isinstance(n.value, ast.Call) and call_name(n.value) == "cross":
+            gs = norm_guards(fn, n)
+            if any(pol and "isclose" in ast.unparse(t) for t, pol, k in gs):
+                sites.append(n)
+    if len(sites) != 1:
+        raise AnalysisError("A14: fallback axis construction for the (anti)parallel case not found in quaternion_from_two_vectors")
+    n = sites[0]
+    args = [expand(fn, a) for a in n.value.args]
+
+    def is_const_vec(e):
+        if isinstance(e, ast.Call) and call_name(e) in ("array", "asarray") and e.args:
+            e = e.args[0]
+        return isinstance(e, (ast.List, ast.Tuple)) and all(const_value(x) is not None for x in e.elts)
+    consts = [a for a in args if is_const_vec(a)]
+    rnd = any("random" in ast.unparse(a) for a in args)
+    ok = not consts
+    obs.append(Ob("A14", clause, fn, n, ok,
+                  "fallback axis = %s: helper is %s" % (ast.unparse(n.value)[:70], "random (never parallel to the input, almost surely)" if rnd else
+                                                     ("a CONSTANT vector: inputs along it give a zero axis and a degenerate rotation, so occurrences in that pose are lost" if consts
+                                                      else "input-dependent")), slot="fallback-axis-helper"))
     return obs
 
 
@@ -594,11 +630,16 @@ def A17_mass_guess(repo, clause):
     # tolerance tests
     tests = []
     for f in [outer] + [c for c in cands if c is not outer]:
-        for n in f.own_nodes():
-            if isinstance(n, ast.Compare) and any(isinstance(x, ast.Name) and x.id == tolname for x in ast.walk(n)):
-                tests.append((f, n))
-            elif isinstance(n, ast.Call) and call_name(n) == "isclose" and any(isinstance(x, ast.Name) and x.id == tolname for x in ast.walk(n)):
-                tests.append((f, n))
+        for r_ in [x for x in f.own_nodes() if isinstance(x, ast.Return) and x.value is not None]:
+            for t, pol, k in norm_guards(f, r_):
+                for n in ast.walk(t):
+                    if isinstance(n, ast.Compare) and any(isinstance(x, ast.Name) and x.id == tolname for x in ast.walk(n)) \
+                            and not any(isinstance(x, ast.Call) and call_name(x) in ("isclose", "allclose") for x in ast.walk(n)):
+                        if all(n is not t2 for _, t2 in tests):
+                            tests.append((f, n))
+                    elif isinstance(n, ast.Call) and call_name(n) in ("isclose", "allclose") and any(isinstance(x, ast.Name) and x.id == tolname for x in ast.walk(n)):
+                        if all(n is not t2 for _, t2 in tests):
+                            tests.append((f, n))
     floor("A17", "tolerance tests", len(tests), 1)
     for f, t in tests:
         two_sided, why = _two_sided(t, tolname)
@@ -606,6 +647,7 @@ def A17_mass_guess(repo, clause):
     # nearest vs first hit
     first_hit = []
     nearest = []
+    scan_loops = []
     for f in [outer] + [c for c in cands if c is not outer]:
         for n in f.own_nodes():
             if isinstance(n, ast.Return) and any(isinstance(a, ast.For) for a in f.ancestors(n)):
@@ -614,19 +656,48 @@ def A17_mass_guess(repo, clause):
                     first_hit.append((f, n))
             if isinstance(n, ast.Call) and call_name(n) in ("min", "argmin", "sorted", "nsmallest"):
                 nearest.append((f, n))
+            if isinstance(n, ast.For) and "ATOMIC_MASSES" in ast.unparse(n.iter):
+                scan_loops.append((f, n))
     for f, n in first_hit:
         obs.append(Ob("A17", clause, f, n, False,
                       "the scan returns the first table entry that passes the tolerance test, not the nearest one "
                       "(two entries can both be within tolerance)", slot="nearest"))
     if not first_hit:
-        if not nearest:
-            raise AnalysisError("A17: neither a first-hit return nor a nearest selection (min/argmin/sorted) recognised")
-        f, n = nearest[0]
-        keyed = kwarg(n, "key") is not None or call_name(n) == "argmin"
-        txt = ast.unparse(expand(f, n))
-        has_abs = "abs(" in txt or "fabs(" in txt or "np.abs" in txt
-        obs.append(Ob("A17", clause, f, n, keyed and has_abs,
-                      "element is chosen by %s over the absolute mass difference (nearest entry)=%s" % (call_name(n), keyed and has_abs), slot="nearest"))
+        best_loop = None
+        for f, lp in scan_loops:
+            # best-so-far idiom: `if abs(m - x) < abs(best - x): best = m`
+            for t in ast.walk(lp):
+                if isinstance(t, ast.If) and isinstance(t.test, ast.Compare) and len(t.test.ops) == 1 and isinstance(t.test.ops[0], (ast.Lt, ast.LtE)) \
+                        and all(isinstance(x, ast.Call) and call_name(x) in ("abs", "fabs") for x in (t.test.left, t.test.comparators[0])):
+                    best_loop = (f, lp, t)
+        if nearest:
+            f, n = nearest[0]
+            keyed = kwarg(n, "key") is not None or call_name(n) == "argmin"
+            txt = ast.unparse(expand(f, n))
+            has_abs = "abs(" in txt or "fabs(" in txt or "np.abs" in txt
+            obs.append(Ob("A17", clause, f, n, keyed and has_abs,
+                          "element is chosen by %s over the absolute mass difference (nearest entry)=%s" % (call_name(n), keyed and has_abs), slot="nearest"))
+        elif best_loop is not None:
+            f, lp, t = best_loop
+            obs.append(Ob("A17", clause, f, t, True, "element is chosen by a best-so-far scan over the absolute mass difference", slot="nearest"))
+        else:
+            raise AnalysisError("A17: neither a first-hit return nor a nearest selection (min/argmin/sorted/best-so-far) recognised")
+    # the scan must cover the whole table: an early `break` is only sound if the table is ordered by mass, which it is not
+    for f, lp in scan_loops:
+        for b in ast.walk(lp):
+            if isinstance(b, ast.Break):
+                from .fam_e import _literal
+                try:
+                    m_, v_, table = _literal(repo, "ATOMIC_MASSES")
+                    vals = list(table.values())
+                    ordered = all(a <= b2 for a, b2 in zip(vals, vals[1:]))
+                    inversions = [k for k, (a, b2) in zip(list(table)[1:], zip(vals, vals[1:])) if a > b2]
+                except AnalysisError:
+                    ordered, inversions = False, []
+                obs.append(Ob("A17", clause, f, b, ordered,
+                              "the scan over the mass table stops early; that is only sound for a table in increasing mass order, "
+                              "and ATOMIC_MASSES is %s (entries lighter than their predecessor: %s)" % (
+                                  "ordered" if ordered else "NOT ordered", inversions[:8]), slot="early-termination"))
     # the raise for "no element" must exist
     raises = [n for f in [outer] + cands for n in f.own_nodes() if isinstance(n, ast.Raise)]
     obs.append(Ob("A17", clause, fe, raises[0] if raises else fe.node, bool(raises),
@@ -672,7 +743,13 @@ def A17_mass_guess(repo, clause):
 
 def _two_sided(t, tol):
     if isinstance(t, ast.Call):
-        return True, "math/np isclose with abs tolerance %s is two-sided" % tol
+        d = dotted(t.func) or ""
+        if d.startswith("math."):
+            return True, "math.isclose with abs_tol=%s is two-sided (rel_tol default 1e-9 is negligible)" % tol
+        rt = kwarg(t, "rtol")
+        if rt is not None and const_value(rt) == 0:
+            return True, "np.isclose with atol=%s and rtol=0 is a two-sided absolute test" % tol
+        return False, "np.isclose/allclose adds the hidden relative tolerance rtol*|b| (default 1e-5) to %s: masses outside the absolute tolerance are accepted" % tol
     txt = ast.unparse(t)
     if any(isinstance(x, ast.Call) and call_name(x) in ("abs", "fabs", "absolute") for x in ast.walk(t)):
         return True, "|difference| compared with the tolerance (%s)" % txt
